@@ -61,6 +61,8 @@ def random_op(st, rng: random.Random, *, D, typed=False, kinds=(0,), xids=(0,), 
                 return {"name": rng.choice(["append_child", "prepend_child"]), "p": rng.choice(live), "d": d, "xid": 0,
                         "k": rng.choice(list(kinds))}
             return {"name": rng.choice(["prepend_sibling", "append_sibling"]), "x": rng.choice(live), "d": d, "xid": 0}
+        if f == "badpos" and room >= 1 and live and rng.random() < 0.3:
+            return {"name": "add_child_nid", "p": rng.choice(parents), "d": rng.randint(1, D), "x": rng.choice(live)}
         if f == "badpos" and room >= 1 and len(live) >= 2:
             p = rng.choice(parents)
             others = [i for i in live if i not in _kids(st, p)]
